@@ -87,6 +87,12 @@ def finish(ctx, level, explanation, assumptions, checker_cmd):
         elif o["status"] == "violated":
             viol.append(o)
     os.makedirs(REPLAY, exist_ok=True)
+    for f in os.listdir(REPLAY):
+        if f.startswith(ctx.pid + "-"):
+            try:
+                os.unlink(os.path.join(REPLAY, f))
+            except OSError:
+                pass
     for o in knownhits:
         print("KNOWN-FINDING: property=%s %s [%s]" % (ctx.pid, kmap[o["key"]]["what"], o["key"]))
     n = 0
